@@ -82,14 +82,16 @@ fn ics20_code() -> Box<dyn Contract<Empty>> {
     Recorded::new("ics20", Box::new(c))
 }
 
-/// cw20-base with a failure switch (harness-only; toggled through `sudo`): while on, every execute fails
+/// cw20-base with fault switches (harness-only; toggled through `sudo`): `on` makes every Transfer fail;
+/// `sloppy` makes Send / SendFrom name the sender in upper case in the Receive message (a valid spelling of
+/// the same bech32 account, but not the normalised one: what a careless token contract could forward)
 pub struct FlakyToken {
     inner: Box<dyn Contract<Empty>>,
 }
 impl FlakyToken {
     pub fn boxed() -> Box<dyn Contract<Empty>> {
         Box::new(FlakyToken {
-            inner: Box::new(ContractWrapper::new(cw20_base::contract::execute, cw20_base::contract::instantiate, cw20_base::contract::query)),
+            inner: crate::contract_code!(cw20_base, has_reply_cw20_base, has_sudo_cw20_base, has_migrate_cw20_base),
         })
     }
 }
@@ -103,7 +105,21 @@ impl Contract<Empty> for FlakyToken {
                 }
             }
         }
-        self.inner.execute(d, e, i, m)
+        let sloppy = d.storage.get(b"verif_sloppy").is_some();
+        let mut r = self.inner.execute(d, e, i, m)?;
+        if sloppy {
+            for sm in r.messages.iter_mut() {
+                if let cosmwasm_std::CosmosMsg::Wasm(cosmwasm_std::WasmMsg::Execute { msg, .. }) = &mut sm.msg {
+                    if let Ok(mut v) = from_json::<Value>(&*msg) {
+                        if let Some(snd) = v.get("receive").and_then(|x| x.get("sender")).and_then(|x| x.as_str()).map(|x| x.to_uppercase()) {
+                            v["receive"]["sender"] = json!(snd);
+                            *msg = to_json_binary(&v)?;
+                        }
+                    }
+                }
+            }
+        }
+        Ok(r)
     }
     fn instantiate(&self, d: DepsMut, e: Env, i: MessageInfo, m: Vec<u8>) -> AnyResult<Response> {
         self.inner.instantiate(d, e, i, m)
@@ -113,10 +129,11 @@ impl Contract<Empty> for FlakyToken {
     }
     fn sudo(&self, d: DepsMut, _e: Env, m: Vec<u8>) -> AnyResult<Response> {
         let v: Value = from_json(&m)?;
-        if v["on"].as_bool().unwrap_or(false) {
-            d.storage.set(b"verif_fail", b"1");
-        } else {
-            d.storage.remove(b"verif_fail");
+        if let Some(on) = v.get("on").and_then(|x| x.as_bool()) {
+            if on { d.storage.set(b"verif_fail", b"1"); } else { d.storage.remove(b"verif_fail"); }
+        }
+        if let Some(on) = v.get("sloppy").and_then(|x| x.as_bool()) {
+            if on { d.storage.set(b"verif_sloppy", b"1"); } else { d.storage.remove(b"verif_sloppy"); }
         }
         Ok(Response::new())
     }
